@@ -130,6 +130,9 @@ const QUERY_3: &str = "query Q { other }\n"; // valid against B only
 const SCHEMA_C: &str = "input Tree { value: Int child: Tree }\ninput Wrapper { t: Tree }\ntype Dog { name: String }\ntype Query { dog: Dog n: Int }\n";
 const SCHEMA_D: &str = "input Tree { value: Int }\ninput Wrapper { t: Tree }\ntype Dog { name: String }\ntype Query { dog: Dog n: Int }\n";
 const QUERY_W: &str = "query Q($w: Wrapper) { n }\n";
+// two documents whose FIRST fragment has the same name and position, recursive in one and flat in the other
+const QUERY_F1: &str = "query Q { dog { ...F } }\nfragment F on Dog { name friend { ...F } }\n";
+const QUERY_F2: &str = "query Q { dog { ...F } }\nfragment F on Dog { name }\n";
 
 fn oc(s: &str) -> String {
     if s == "panic" || s == "thread-died" {
@@ -183,6 +186,8 @@ pub fn run(outdir: &Path, tier: &str, seed: u64, shards: usize, _replay: Option<
         ("c.graphql", Some("SC"), Some(SCHEMA_C.into())),
         ("d.graphql", Some("SD"), Some(SCHEMA_D.into())),
         ("qw.graphql", Some("QW"), Some(QUERY_W.into())),
+        ("qf1.graphql", Some("QF1"), Some(QUERY_F1.into())),
+        ("qf2.graphql", Some("QF2"), Some(QUERY_F2.into())),
         ("q1.graphql", Some("Q1"), Some(QUERY_1.into())),
         ("x/q.graphql", Some("Q1"), Some(QUERY_1.into())),
         ("y/q.graphql", Some("Q2"), Some(QUERY_2.into())),
@@ -198,7 +203,7 @@ pub fn run(outdir: &Path, tier: &str, seed: u64, shards: usize, _replay: Option<
     let _ = std::os::unix::fs::symlink("a.graphql", base.join("alias.json"));
     let _ = std::os::unix::fs::symlink("a.graphql", base.join("alias.current"));
     let schemas = ["alias.json", "alias.current", "a.graphql", "x/schema.graphql", "y/schema.graphql", "a.gql", "a.json", "app/schema.graphql", "app/shared/../schema.graphql", "c.graphql", "d.graphql", "broken.graphql", "schema.txt", "missing.graphql"];
-    let queries = ["q1.graphql", "x/q.graphql", "y/q.graphql", "q3.graphql", "qw.graphql", "brokenq.graphql", "missingq.graphql"];
+    let queries = ["q1.graphql", "x/q.graphql", "y/q.graphql", "q3.graphql", "qw.graphql", "qf1.graphql", "qf2.graphql", "brokenq.graphql", "missingq.graphql"];
     let optids = ["default", "rust", "other", "named"];
     let nhist = if tier == "thorough" { 300 } else { 24 };
     let mut cases = vec![];
@@ -211,6 +216,8 @@ pub fn run(outdir: &Path, tier: &str, seed: u64, shards: usize, _replay: Option<
         vec![vec![mk("missingq.graphql", "a.graphql", "default"), mk("q1.graphql", "a.graphql", "default")]],           // failed load, then a good call
         vec![vec![mk("q1.graphql", "broken.graphql", "default"), mk("q1.graphql", "a.graphql", "default"), mk("q1.graphql", "schema.txt", "default"), mk("q1.graphql", "a.graphql", "default")]],
         vec![vec![mk("q1.graphql", "x/schema.graphql", "default"), mk("q1.graphql", "y/schema.graphql", "default"), mk("q1.graphql", "x/schema.graphql", "default")]], // same base name
+        vec![vec![mk("qf1.graphql", "a.graphql", "default"), mk("qf2.graphql", "a.graphql", "default"), mk("qf1.graphql", "a.graphql", "default")]], // recursion of the k-th fragment differs between documents
+        vec![vec![mk("qf2.graphql", "a.graphql", "default"), mk("qf1.graphql", "a.graphql", "default")]],
         vec![vec![mk("q1.graphql", "a.graphql", "default"), mk("q1.graphql", "alias.json", "default"), mk("q1.graphql", "alias.current", "default"), mk("q1.graphql", "a.graphql", "default")]], // aliases with other extensions
         vec![vec![mk("q1.graphql", "app/shared/../schema.graphql", "default"), mk("q1.graphql", "app/schema.graphql", "default")]],
         vec![vec![mk("q1.graphql", "app/schema.graphql", "default"), mk("q1.graphql", "app/shared/../schema.graphql", "default")]],
@@ -234,7 +241,7 @@ pub fn run(outdir: &Path, tier: &str, seed: u64, shards: usize, _replay: Option<
             for _ in 0..n {
                 // mostly-valid calls, with failing ones mixed in
                 let s = if rng.chance(4, 5) { schemas[rng.below(9)] } else { schemas[9 + rng.below(3)] };
-                let q = if rng.chance(4, 5) { queries[rng.below(5)] } else { queries[5 + rng.below(2)] };
+                let q = if rng.chance(4, 5) { queries[rng.below(7)] } else { queries[7 + rng.below(2)] };
                 calls.push(Call { q: q.to_string(), s: s.to_string(), o: optids[rng.below(optids.len())].to_string() });
             }
             threads.push(calls);
